@@ -247,9 +247,25 @@ func HarnessC13Convert() {
 func srvMalformed(depth int) *proto.Query_Expression {
 	kinds := 4
 	if depth > 0 {
-		kinds = 8
+		kinds = 9
 	}
 	switch verifChoice("node", kinds) {
+	case 8:
+		// a chain of 2..4 negations around something absent or present (rewrites of nested
+		// negations must not lose sight of what is missing underneath)
+		var e *proto.Query_Expression
+		switch verifChoice("under-the-chain", 3) {
+		case 0:
+			e = pNot(nil)
+		case 1:
+			e = pNot(&proto.Query_Expression{})
+		default:
+			e = pNot(pEq("a", "x"))
+		}
+		for n := 1 + verifChoice("chain", 3); n > 0; n-- {
+			e = pNot(e)
+		}
+		return e
 	case 0:
 		return pEq("a", "x")
 	case 1:
